@@ -32,7 +32,7 @@ type c11Pair struct {
 // c11Facade unifies sqlx.Conn and sqlc.CachedConn for the constructor sweep.
 type c11Facade struct {
 	name     string
-	transact func(func(context.Context, sqlx.Session) error) error
+	transact func(context.Context, func(context.Context, sqlx.Session) error) error
 	queryRow func(v any, q string, args ...any) error
 	queryAll func(v any, q string, args ...any) error
 	exec     func(q string, args ...any) (sql.Result, error)
@@ -43,9 +43,9 @@ type c11Facade struct {
 func c11FacadeOfConn(name string, cn sqlx.Conn, ctx bool) c11Facade {
 	f := c11Facade{name: name, queryRow: cn.QueryRow, queryAll: cn.QueryRows, exec: cn.Exec, prepare: cn.Prepare, rawDB: cn.RawDB}
 	if ctx {
-		f.transact = func(b func(context.Context, sqlx.Session) error) error { return cn.TransactCtx(c11Bg, b) }
+		f.transact = func(cx context.Context, b func(context.Context, sqlx.Session) error) error { return cn.TransactCtx(cx, b) }
 	} else {
-		f.transact = func(b func(context.Context, sqlx.Session) error) error {
+		f.transact = func(_ context.Context, b func(context.Context, sqlx.Session) error) error {
 			return cn.Transact(func(s sqlx.Session) error { return b(c11Bg, s) })
 		}
 	}
@@ -55,12 +55,12 @@ func c11FacadeOfConn(name string, cn sqlx.Conn, ctx bool) c11Facade {
 func c11FacadeOfCached(name string, cc sqlc.CachedConn, cn sqlx.Conn, ctx bool) c11Facade {
 	f := c11Facade{name: name, queryRow: cc.QueryRowNoCache, queryAll: cc.QueryRowsNoCache, exec: cc.ExecNoCache, prepare: cn.Prepare, rawDB: cn.RawDB}
 	if ctx {
-		f.transact = func(b func(context.Context, sqlx.Session) error) error { return cc.TransactCtx(c11Bg, b) }
+		f.transact = func(cx context.Context, b func(context.Context, sqlx.Session) error) error { return cc.TransactCtx(cx, b) }
 		f.queryRow = func(v any, q string, a ...any) error { return cc.QueryRowNoCacheCtx(c11Bg, v, q, a...) }
 		f.queryAll = func(v any, q string, a ...any) error { return cc.QueryRowsNoCacheCtx(c11Bg, v, q, a...) }
 		f.exec = func(q string, a ...any) (sql.Result, error) { return cc.ExecNoCacheCtx(c11Bg, q, a...) }
 	} else {
-		f.transact = func(b func(context.Context, sqlx.Session) error) error {
+		f.transact = func(_ context.Context, b func(context.Context, sqlx.Session) error) error {
 			return cc.Transact(func(s sqlx.Session) error { return b(c11Bg, s) })
 		}
 	}
@@ -114,7 +114,13 @@ func TestVerifC11Constructors(t *testing.T) {
 				{N: 2, K: 2, Kinds: "eq", Outcome: "nil", StmtFault: 1, Reaction: "propagate"},
 				{N: 2, K: 2, Kinds: "eq", Outcome: "nil", StmtFault: 1, Reaction: "notfound-continue", IterFault: true},
 				{N: 0, K: 0, Outcome: "nil", StmtFault: -1, BeginFault: true},
+				{N: 1, K: 1, Kinds: "e", Outcome: "error", StmtFault: -1, CtxMode: "cancelled-by-body"},
+				{N: 1, K: 1, Kinds: "e", Outcome: "nil", StmtFault: -1, CtxMode: "deadline-in-body"},
+				{N: 1, K: 0, Kinds: "e", Outcome: "panic-error", StmtFault: -1, CtxMode: "cancelled-before"},
 			} {
+				if tc.CtxMode != "" && !ctx {
+					continue // Transact has no context
+				}
 				idx++
 				tc.API = fmt.Sprintf("%s ctx=%v", ctor, ctx)
 				if !m.Only(idx) {
